@@ -242,6 +242,29 @@ func checkC18(p *Prog, r *Report) {
 		}
 	}
 
+	// R2 (must-store): wherever the nodelay mode is stored, the matching minimum is stored on every path
+	for _, st := range p.FieldStores(p.Field("KCP", "nodelay")) {
+		c := p.CFG(st.Fn)
+		pt, _ := c.PointOf(st.Node)
+		res := c.FindPath(PathQuery{From: Point{pt.B, pt.I + 1}, ExitIsTarget: true, IsBarrier: func(n ast.Node, _ Point) bool {
+			as, ok := n.(*ast.AssignStmt)
+			if !ok {
+				return false
+			}
+			for _, l := range as.Lhs {
+				if t := p.Term(l); t.Op == "fld" && t.Obj == fMin {
+					return true
+				}
+			}
+			return false
+		}})
+		if res.Found {
+			r.bad("C18.R2", st.Fn.Name, p.Pos(st.Node), "mode change stores the minimum", "a path changes the nodelay mode without storing the matching rx_minrto: after switching no-delay off the 30 ms minimum stays in force (RTO below the configured 100 ms)", c.DescribePath(res.Path))
+		} else {
+			r.ok("C18.R2", st.Fn.Name, p.Pos(st.Node), "mode change stores the minimum", "every path from the nodelay store stores rx_minrto")
+		}
+	}
+
 	// R3
 	upd := p.Method("KCP", "update_ack")
 	for _, s := range p.CallsTo(upd) {
